@@ -193,6 +193,10 @@ func addVirtualTableHelper(vTableMap map[string]struct{}, orgid int64) (bool, er
 	}
 
 	for tname := range vTableMap {
+		if !utils.IsSafePathComponent(tname) {
+			log.Errorf("AddVirtualTable: ignoring invalid virtual table name %q", tname)
+			continue
+		}
 		if _, exists := orgVTableMap[tname]; !exists {
 			vTablesToAppend[tname] = struct{}{}
 			orgVTableMap[tname] = true
@@ -233,6 +237,9 @@ func addVirtualTableHelper(vTableMap map[string]struct{}, orgid int64) (bool, er
 }
 
 func AddVirtualTable(tname *string, orgid int64) error {
+	if !utils.IsSafePathComponent(*tname) {
+		return fmt.Errorf("AddVirtualTable: invalid virtual table name %q", *tname)
+	}
 	vTableMap := make(map[string]struct{})
 	vTableMap[*tname] = struct{}{}
 
@@ -306,6 +313,9 @@ func AddVirtualTableAndMapping(tname *string, mapping *string, orgid int64) erro
 }
 
 func AddMapping(tname *string, mapping *string, orgid int64) error {
+	if !utils.IsSafePathComponent(*tname) {
+		return fmt.Errorf("AddMapping: invalid virtual table name %q", *tname)
+	}
 	var sb1 strings.Builder
 	sb1.WriteString(VTableMappingsDir)
 	if orgid != 0 {
